@@ -8,6 +8,7 @@ the traces are instantiated for 2-3 threads x up to 2 stanzas and encoded as a p
 write falls between a length header and its payload, the wire order differs from the nonce order, or two frames share a
 nonce.  unsat = the property holds for every interleaving of those threads.  A sat schedule is replayed with real
 threads gated at the recorded points and a strict in-order peer decrypting the socket bytes."""
+import os
 import threading
 import z3
 from sx import core, hooks, harness as H
@@ -196,6 +197,14 @@ def do_send(kind, insts, iq, variant=0):
         insts[-1].send(OutgoingChatstateProtocolEntity("composing" if variant % 2 == 0 else "paused", "4915900000%03d@s.whatsapp.net" % variant))
     elif kind == "keepalive":
         iq.sendIq(PingIqProtocolEntity())
+    elif kind in ("coder", "coder2"):
+        # a sender that hands stanzas to the coder layer itself (a stack without the protocol layers above it, as the property's
+        # "through coder, noise, segment and network layers"): no upper layer's lock serialises such senders
+        if kind == "coder":
+            node = PresenceProtocolEntity("available", "direct-%d" % variant if variant else None).toProtocolTreeNode()
+        else:
+            node = OutgoingChatstateProtocolEntity("composing" if variant % 2 == 0 else "paused", "4915900000%03d@s.whatsapp.net" % variant).toProtocolTreeNode()
+        insts[3].send(node)
 
 
 def extract(kind):
@@ -342,9 +351,13 @@ def h_schedules(ctx, kinds, n_ops):
     return replay_schedule(ctx, kinds, n_ops)
 
 
-def replay_schedule(ctx, kinds, n_ops):
-    """run the solver's schedule with real threads gated at the traced events; a strict in-order peer decrypts the socket bytes"""
-    threads, indep = _threads(kinds, n_ops)
+def replay_schedule(ctx, kinds, n_ops, lines=None):
+    """run the solver's schedule with real threads gated at the traced events; a strict in-order peer decrypts the socket bytes
+    (with `lines`: shared-state accesses are gate points too and the peer also decodes and compares the stanzas)"""
+    if lines is None:
+        threads, indep = _threads(kinds, n_ops)
+    else:
+        threads, indep = exact_threads(kinds, n_ops, lines), True
     order = []
     for ti, (name, ops) in enumerate(threads):
         k = 0
@@ -356,6 +369,16 @@ def replay_schedule(ctx, kinds, n_ops):
     order.sort()
     tr = Tracer()
     st, insts, disp, iq, key = build(tr, True)
+    handed = []
+    if lines is not None:
+        coder = insts[3]
+        orig_send = coder.send
+
+        def rec_send(node):
+            handed.append(node)
+            return orig_send(node)
+        coder.send = rec_send
+        threading.settrace(line_tracer(tr, lines))
     cond = threading.Condition()
     pos = [0]
     dead = [False]
@@ -394,12 +417,15 @@ def replay_schedule(ctx, kinds, n_ops):
         t.start()
     for t in ths:
         t.join(30)
+    if lines is not None:
+        threading.settrace(None)
     # strict in-order peer
     from dissononce.processing.impl.cipherstate import CipherState
     from dissononce.cipher.aesgcm import AESGCMCipher
     peer = CipherState(AESGCMCipher())
     peer.initialize_key(key)
     stream = b"".join(disp.out)
+    plains = []
     frames, ok, i = 0, True, 0
     try:
         while i < len(stream):
@@ -408,14 +434,153 @@ def replay_schedule(ctx, kinds, n_ops):
             if len(ct) != n:
                 ok = False
                 break
-            peer.decrypt_with_ad(b"", ct)
+            pt = peer.decrypt_with_ad(b"", ct)
+            plains.append(bytes(pt))
             frames += 1
             i += 3 + n
     except Exception:
         ok = False
     total = len(kinds) * n_ops
+    if lines is not None:
+        from yowsup.layers.coder.decoder import ReadDecoder
+        from yowsup.layers.coder.tokendictionary import TokenDictionary
+        left = list(handed)
+        bad = []
+        for pt in plains:
+            try:
+                node = ReadDecoder(TokenDictionary()).getProtocolTreeNode(bytearray(pt))
+            except Exception as e:
+                bad.append("undecodable plaintext (%s)" % type(e).__name__)
+                continue
+            hit = [x for x in left if x == node]
+            if hit:
+                left.remove(hit[0])
+            else:
+                bad.append("a stanza nobody sent (or sent once, received twice): <%s>" % node.tag)
+        if dead[0] and not bad and not errs:
+            return [("schedule not realisable with real threads (nothing to judge)", True)]
+        ctx.note("%d sent, %d frames; %s; not received: %s" % (len(handed), frames, bad[:2], [x.tag for x in left][:3]))
+        return [("every stanza handed to the coder layer reaches the peer exactly once, unchanged", ok and not bad and not left and not errs and len(handed) == total)]
     return [("extracted traces are data independent", indep),
             ("no interleaving corrupts the stream (header/payload adjacency, nonce order == wire order, no nonce reuse)", ok and frames == total and not errs and not dead[0] or (dead[0] and ok))]
+
+
+# ---- data races on state shared by the senders ------------------------------------------------------------------------------------------
+def _repo():
+    return os.path.realpath(os.environ.get("YOWSUP_REPO", "/repo"))
+
+
+def discover_shared_lines(kinds):
+    """source lines of the send path that access a container object which outlives a send (symbolic mode: the instrumented code reports
+    every container access).  -> {(file, line): (object label, "r"|"w")}"""
+    seen = {}            # id -> [object (kept alive: ids stay unique), set of send indices, {(file, line): rw}]
+    cur = [0]
+
+    def obs(obj, rw, frame):
+        e = seen.setdefault(id(obj), [obj, set(), {}])
+        e[1].add(cur[0])
+        k = (os.path.realpath(frame.f_code.co_filename), frame.f_lineno)
+        e[2][k] = "w" if rw == "w" or e[2].get(k) == "w" else "r"
+    tr = Tracer()
+    st, insts, disp, iq, key = build(tr, False)
+    hooks.ACCESS_OBSERVER = obs
+    try:
+        for k in sorted(set(kinds)):
+            for v in (0, 1):
+                cur[0] += 1
+                do_send(k, insts, iq, v)
+    finally:
+        hooks.ACCESS_OBSERVER = None
+    lines = {}
+    label = 0
+    for oid, (obj, sends, where) in sorted(seen.items(), key=lambda kv: sorted(kv[1][2])[0] if kv[1][2] else ("", 0)):
+        if len(sends) < 2 or not any(rw == "w" for rw in where.values()):
+            continue              # created and dropped within one send, or never written: cannot be raced on
+        label += 1
+        for k, rw in where.items():
+            lines[k] = ("obj%d:%s" % (label, type(obj).__name__), rw)
+    return lines
+
+
+def line_tracer(tr, lines):
+    files = set(f for f, _ in lines)
+
+    def local(frame, event, arg):
+        if event == "line":
+            k = (os.path.realpath(frame.f_code.co_filename), frame.f_lineno)
+            if k in lines:
+                tr.ev("acc", lines[k])
+        return local
+
+    def glob(frame, event, arg):
+        return local if os.path.realpath(frame.f_code.co_filename) in files else None
+    return glob
+
+
+def exact_threads(kinds, n_ops, lines):
+    """per-thread traces of exactly the stanzas the replay sends (variant 10*i+j), with the shared-state accesses as events"""
+    import sys
+    out = []
+    for i, k in enumerate(kinds):
+        tr = Tracer()
+        st, insts, disp, iq, key = build(tr, False)
+        ops = []
+        old = sys.gettrace()
+        sys.settrace(line_tracer(tr, lines))
+        try:
+            for j in range(n_ops):
+                n0 = len(tr.events)
+                do_send(k, insts, iq, 10 * i + j)
+                ops.append([(kk, a if kk != "write" else ("hdr" if a == 3 else "payload")) for (_t, kk, a) in tr.events[n0:]])
+        finally:
+            sys.settrace(old)
+        private = set(l.name for l in tr.locks if l.private)
+        ops = [[(kk, ("%s@T%d" % (a, i)) if (kk in ("acq", "rel", "create") and a in private) else a) for (kk, a) in t] for t in ops]
+        out.append(("T%d:%s" % (i, k), ops))
+    return out
+
+
+def h_races(ctx, kinds, n_ops):
+    """for every pair of accesses to one shared container from two different senders, at least one of them a write, that NO lock orders
+    (the solver finds a schedule in which they are adjacent), that schedule is executed with real threads: the peer must still receive
+    exactly the stanzas that were sent.  Unordered accesses that do no harm (a dict insert under the interpreter lock) pass."""
+    if H.sym(ctx):
+        lines = discover_shared_lines(kinds)
+        ctx.vars["race_lines"] = ("const", None, [[os.path.relpath(f, _repo()), l, lab, rw] for (f, l), (lab, rw) in sorted(lines.items())])
+        threads = exact_threads(kinds, n_ops, lines)
+        cons, bad, evs, T = encode(ctx, threads)
+        for c in cons:
+            ctx.assume(c)
+        pairs = []
+        by = {}
+        for (ti, oi, ei, k, a) in evs:
+            if k == "acc":
+                by.setdefault(a[0], {}).setdefault(ti, []).append((oi, ei, a[1]))
+        for lab, per in sorted(by.items()):
+            for ti in sorted(per):
+                for tj in sorted(per):
+                    if ti == tj:
+                        continue
+                    A = per[ti]
+                    picks = sorted(set([0, len(A) // 3, len(A) // 2, (2 * len(A)) // 3, len(A) - 1]))
+                    firsts = {}
+                    for (oj, ej, rw) in per[tj]:
+                        firsts.setdefault(oj, (oj, ej, rw))
+                    for p in picks:
+                        oi, ei, rwa = A[p]
+                        for (oj, ej, rwb) in firsts.values():
+                            if "w" in (rwa, rwb):
+                                pairs.append((lab, (ti, oi, ei), (tj, oj, ej)))
+        ctx.note("%d shared containers, %d candidate access pairs" % (len(by), len(pairs)))
+        if not pairs:
+            return [("no container outlives a send and is written by the send path: nothing to race on", True)]
+        which = ctx.choice("race", list(range(len(pairs))))
+        lab, a, b = pairs[which]
+        ctx.assume(T[b] == T[a] + 1)
+        ctx.note("unordered pair on %s: %s then %s" % (lab, a, b))
+        return [("a schedule exists in which two senders touch %s back to back without a common lock (its effect is judged on the real threads)" % lab, True)]
+    lines = {(os.path.join(_repo(), f), l): (lab, rw) for f, l, lab, rw in ctx.values.get("race_lines", [])}
+    return replay_schedule(ctx, kinds, n_ops, lines)
 
 
 # ---- concurrent senders after a send that was refused -------------------------------------------------------------------------------
@@ -479,6 +644,10 @@ def h_after_failure(ctx, kinds):
 
 def cases(tier):
     cs = [dict(name="after-refused-send[app+keepalive]", fn=h_after_failure, args=(("app", "keepalive"),)),
+          dict(name="races[app+app2,1 send]", fn=h_races, args=(("app", "app2"), 1), timeout_s=900, weight=20, keep_samples=64),
+          dict(name="races[coder+coder2,1 send]", fn=h_races, args=(("coder", "coder2"), 1), timeout_s=900, weight=20, keep_samples=64),
+          dict(name="threads[coder+coder2,2 sends]", fn=h_schedules, args=(("coder", "coder2"), 2), timeout_s=900, weight=10),
+          dict(name="races[app+keepalive,1 send]", fn=h_races, args=(("app", "keepalive"), 1), timeout_s=900, weight=20, keep_samples=64),
           dict(name="threads[app+keepalive,2 sends]", fn=h_schedules, args=(("app", "keepalive"), 2), timeout_s=900, weight=10),
           dict(name="threads[app+app2,2 sends]", fn=h_schedules, args=(("app", "app2"), 2), timeout_s=900, weight=10),
           dict(name="threads[app+keepalive+app2,1 send]", fn=h_schedules, args=(("app", "keepalive", "app2"), 1), timeout_s=900, weight=10)]
